@@ -5,6 +5,7 @@
 -/
 import PicoSVG.Proofs.Affine
 import PicoSVG.Spec.Transform
+import PicoSVG.Gen.Tables
 
 set_option linter.unusedSectionVars false
 set_option linter.unusedVariables false
@@ -150,6 +151,31 @@ theorem decomposeTranslation_exact (tolEq tolDec : α) (htol : 0 ≤ tolEq) (s t
   Aff.decomposeTranslation_exact tolEq tolDec htol s t p hdet hband h
 
 end OrderedField
+
+/-! #### tie to the source (generated on every run by tools/translate.py): the constants the
+hand-written model of `parse_svg_transform` / `rect_to_rect` / `decompose_translation` assumes.
+If the source changes one of them the equation fails and the check goes to the failing-input
+search. -/
+
+theorem gen_transform_literals : Gen.transformParseLiterals =
+    ["(?i)(matrix|translate|scale|rotate|skewX|skewY)\\s*\\(([^)]*)\\)", "\\s*[,\\s]\\s*"] := by decide
+theorem gen_fixup_keys : Gen.svgArgFixupKeys = ["rotate", "skewx", "skewy"] := by decide
+theorem gen_op_arity : Gen.opArity =
+    [("matrix", 6, 6), ("translate", 1, 2), ("scale", 1, 2), ("rotate", 1, 3), ("skewx", 1, 1),
+     ("skewy", 1, 1)] := by decide
+theorem gen_op_names : Gen.opArity.map (·.1) = TransformParse.opNames := by decide
+theorem gen_align_values : Gen.alignValues =
+    ["none", "xmaxymax", "xmaxymid", "xmaxymin", "xmidymax", "xmidymid", "xmidymin", "xminymax",
+     "xminymid", "xminymin"] ∧ Gen.meetOrSlice = ["meet", "slice"] := by decide
+/-- the model's alignment table has exactly the accepted align values -/
+theorem gen_align_table :
+    Gen.alignValues.all (fun k => (alignTable.lookup k).isSome) = true ∧
+    alignTable.all (fun p => Gen.alignValues.contains p.1) = true := by decide
+/-- tolerances: 1e-4, 1e-9, DBL_EPSILON; identity / degenerate constants -/
+theorem gen_constants : Gen.decompositionTolBits = 0x3F1A36E2EB1C432D ∧
+    Gen.almostEqualTolBits = 0x3E112E0BE826D695 ∧ Gen.floatEpsilonBits = 0x3CB0000000000000 ∧
+    Gen.identityAffineBits = [0x3FF0000000000000, 0, 0, 0x3FF0000000000000, 0, 0] ∧
+    Gen.degenerateAffineBits = [0, 0, 0, 0, 0, 0] := by decide
 
 /-! non-vacuity: concrete instances meeting the hypotheses (over ℚ) -/
 example : (Aff.isDegenerate (0 : Rat) (⟨2, 0, 0, 3, 5, 7⟩ : Aff Rat)) = false := by decide +kernel
